@@ -1,6 +1,7 @@
 package rpcsim
 
 import (
+	"runtime"
 	"bytes"
 	"context"
 	"errors"
@@ -370,6 +371,11 @@ func runWorld(t *testing.T, r *simkit.Run) {
 		"cooldown_ms": c.Cooldown.Milliseconds(), "cli_queue": c.CliQueue, "svc_conc": c.SvcConc, "svc_queue": c.SvcQueue,
 		"svc_timeout_ms": c.SvcTimeout.Milliseconds(), "start_bias": c.StartBias, "deadline_bias": c.DeadlineBias,
 		"cancel_bias": c.CancelBias, "err_bias": c.ErrBias, "data": c.DataFrames}
+	// sync.Pools survive across runs; anything pooled that owns a channel created in
+	// the previous run's bubble would crash the worker when reused in this one
+	// ("synctest channel from outside bubble"). Two GC cycles empty the pools.
+	runtime.GC()
+	runtime.GC()
 	simkit.Bubble(t, r, func() {
 		w := &world{r: r, sim: simkit.NewWorld(r), cfg: c, opsLeft: c.Ops, curOp: -1, pendingBySource: map[uint64]int{}, connectedSlots: map[int]int{}}
 		defer w.teardown()
